@@ -5,7 +5,7 @@ package main
 // tombstones with index.SetTombstone, trash with old/fresh/future mtimes, renamed repositories,
 // temp files), twice in a row. Mapped into the package by `go test -overlay`.
 // cleanup.go is mapped as a copy in which moveAll's os.Rename goes through the zzfs shim (translator/fsinstrument,
-// see props/C32/prop.py): in a quarter of the cases the renames of one or two shards are made to fail during the first
+// see props/C32/prop.py): in 30% of the cases the renames of one or two shards are made to fail during the first
 // cleanup, which exercises moveAll's failure fallback ("failed to move shard, deleting all shards").
 
 import (
@@ -374,7 +374,7 @@ func TestVerifC32(t *testing.T) {
 		before := vfC32Observe(t, dir)
 		// ---- rename failures (moveAll's fallback): pick shard files that cleanup is likely to move
 		var plan zzfs.Plan
-		if r.Chance(25) {
+		if r.Chance(30) {
 			// shards cleanup will probably move: trashed shards of assigned repositories that are not alive in the
 			// index (restore), simple shards of unassigned repositories (trashing); any other shard otherwise
 			var restore, trashing, other []string
